@@ -207,9 +207,7 @@ def run(prog, rep, tier):
                   "topological_ordering(A) is called unconditionally and its ValueError propagates",
                   "the ValueError of topological_ordering(A) is swallowed or the call is conditional")
         stores = S3.select("attrstore", qname=f3.qname)
-        early = [s for s in stores if s.order < c.order]
-        rep.check("GATE.anm.order", not early, fwhere(f3, c.node), "no attribute is stored before the check",
-                  "attributes are stored before the acyclicity check")
+        # attributes stored before an unconditional check are harmless in a constructor: when it raises, no object exists
         st = [s for s in stores if ("param", "A") in atoms(s.value) and s.attr != "ordering"]
         rep.check("GATE.anm.stored", bool(st) and all(derives_patternwise(s.value, "A") or s.value[0] == "ext" for s in st),
                   fwhere(f3), "the stored matrix is (a copy of) the checked one", "the stored matrix is not the checked one")
